@@ -86,7 +86,7 @@ let rec show r =
   if core_err r then "E" else
     match r with
     | RBot | RFuel -> "E"
-    | RVal (k, a, p) -> if !no_open then "V" ^ bits k ^ ":" ^ bits p else "V" ^ bits k ^ ":" ^ bits a ^ ":" ^ bits p
+    | RVal (k, a, p) -> "V" ^ bits k ^ ":" ^ bits a ^ ":" ^ bits p
     | RStruct (fs, o) ->
       "{" ^ String.concat "," (List.map (fun (p, r') ->
           match p with
@@ -98,7 +98,7 @@ and show_nested r =
   (* the API does not report values of optional/required fields as concrete: mask the pin bits *)
   if core_err r then "E" else
     match r with
-    | RVal (k, a, p) -> if !no_open then "V" ^ bits k ^ ":" ^ bits (List.map (fun _ -> false) p) else "V" ^ bits k ^ ":" ^ bits a ^ ":" ^ bits (List.map (fun _ -> false) p)
+    | RVal (k, a, p) -> "V" ^ bits k ^ ":" ^ bits a ^ ":" ^ bits (List.map (fun _ -> false) p)
     | _ -> show r
 
 let split_on_string sep s =
